@@ -184,6 +184,42 @@ def routes(ctx, fx, I):
         ctx.finding("C12.D1", f, "routes", "the Object arm of %s can return without calling the object builder: such objects get no `_sd`/decoys" % f.name)
     else:
         ctx.ok("C12.D1", f, "routes", "the Object arm of the recursive marker always calls the object builder %s" % B.name)
+    # no container is handed back as it came in
+    import c03
+    mv = vals(f)
+    raw = []
+    for e in cfg.exit_sites(f):
+        if "rv" in e:
+            v = mv._rv(e["rv"], e["bb"], e["idx"])
+            if raw_copy_of_param(v) == pidx:
+                raw.append(e)
+    for kind in c03.CONTAINER_KINDS:
+        rem, nsw = c03.kind_edges(fx, f, pidx, (kind,))
+        r2 = cfg.reachable(f, [0], removed_edges=rem)
+        bad = [e for e in raw if e["bb"] in r2]
+        if bad:
+            ctx.finding("C12.D1", f, "passthrough:%s" % kind, "a JSON %s can be returned by the marker as it came in (a guard or fast path): objects beneath it get no `_sd` and no decoys, "
+                        "and nothing beneath it is hidden" % kind.lower(), line=bad[0]["line"])
+        else:
+            ctx.ok("C12.D1", f, "passthrough:%s" % kind, "with the parameter a JSON %s the marker never returns an unprocessed copy of it" % kind.lower())
+    for g_ in (I.obj_builder, I.list_builder):
+        if g_ is None:
+            continue
+        gv = vals(g_)
+        bad = []
+        for e in cfg.exit_sites(g_):
+            v = gv._rv(e["rv"], e["bb"], e["idx"]) if "rv" in e else None
+            if v is not None and raw_copy_of_param(v) is not None:
+                bad.append(e)
+        rvw = gv.return_value()
+        for alt in (peel(rvw).kids if peel(rvw).kind == "phi" else [rvw]):
+            if raw_copy_of_param(alt) is not None and not bad:
+                bad.append({"line": g_.line})
+        if bad:
+            ctx.finding("C12.D1", g_, "passthrough", "the builder can return (a copy of) the container it was given without walking it (early return / fast path): objects beneath it get "
+                        "no `_sd` and no decoys, and nothing beneath it is hidden", line=bad[0].get("line"))
+        else:
+            ctx.ok("C12.D1", g_, "passthrough", "every value the builder returns is assembled from processed children, never a copy of its input")
     # children recurse through the marker
     for g_ in (I.obj_builder, I.list_builder):
         if g_ is None:
@@ -193,6 +229,25 @@ def routes(ctx, fx, I):
             ctx.ok("C12.D1", g_, "routes-children", "children are processed through the recursive marker %s" % f.name)
         else:
             ctx.finding("C12.D1", g_, "routes-children", "children of this container are not processed through the recursive marker")
+
+
+COPY_STEPS = {"collect", "cloned", "copied", "iter", "into_iter", "to_vec", "to_owned", "clone", "into", "from", "values", "as_slice", "deref", "as_ref", "borrow"}
+
+
+def raw_copy_of_param(v, depth=0):
+    """index of the parameter that v is an unprocessed copy of (through JSON container constructors, clones, to_vec, iter().cloned().collect()), else None"""
+    v = peel(v)
+    if depth > 12:
+        return None
+    if v.kind == "param":
+        return v.d["idx"]
+    if v.kind == "agg" and v.d["agg"].get("adt") == "serde_json::Value" and v.d["agg"].get("variant") in ("Array", "Object") and len(v.kids) == 1:
+        return raw_copy_of_param(v.kids[0], depth + 1)
+    if v.kind in ("variant", "field", "index") and v.kids:
+        return raw_copy_of_param(v.kids[0], depth + 1)
+    if v.kind == "call" and v.d["term"].get("name") in COPY_STEPS and v.kids and not v.d["term"].get("resolved_local"):
+        return raw_copy_of_param(v.kids[0], depth + 1)
+    return None
 
 
 def flag_provenance(ctx, fx, I):
